@@ -20,10 +20,17 @@ open Lean Proto St4sd.ValSchema St4sd.Validate
 partial def toVal : Json → Val
   | .null => .null
   | .bool b => .bool b
-  | .num n => if n.exponent == 0 then .int n.mantissa else .float
+  | .num n =>
+      if n.exponent == 0 then .int n.mantissa
+      else .float (Int.tdiv n.mantissa ((10 : Int) ^ n.exponent)) (Int.tmod n.mantissa ((10 : Int) ^ n.exponent) != 0)
   | .str s => .str s.toList
   | .arr a => .list (a.toList.map toVal)
-  | .obj kvs => .dict (kvs.toList.map (fun (k, v) => (k.toList, toVal v)))
+  | .obj kvs =>
+      -- a Python float is sent as `{"$float": [int(value), value != int(value)]}` by the harness (the JSON spelling
+      -- of a float such as `1e+22` or `3.0` does not say that it is one)
+      match kvs.toList with
+      | [("$float", .arr #[.num w, .bool f])] => .float w.mantissa f
+      | l => .dict (l.map (fun (k, v) => (k.toList, toVal v)))
 
 def getId (j : Json) : Except String Id := do
   let a ← j.getArr?
